@@ -32,9 +32,9 @@ def schedules(draw, max_n=12, renderings=RENDERINGS, exact=False):
         first = int(start) + draw(st.integers(1, 5))
         step = draw(st.integers(1, 4))
         times = [float(first + k * step) for k in range(n)]
-        if any(t == 0.0 for t in times):
-            times = [t + 1.0 for t in times]
-            first += 1
+        if any(t == 0.0 for t in times):  # the sequence would cross zero: start it at 1 instead
+            first = 1
+            times = [float(first + k * step) for k in range(n)]
         spec = {"start": start, "times": times, "render": render, "first": first, "step": step, "n": n}
         return spec
     if render == "numpy_linspace":
